@@ -83,7 +83,7 @@ def _params(rng: random.Random) -> dict:
     if rng.random() < 0.2:
         phi = round(rng.uniform(*PHI_RANGE), 3)
     return {
-        "n": rng.choice([3, 3, 4, 5, 5, 6, 7, 8, 9, 10]),
+        "n": rng.choice([2, 2, 3, 3, 4, 5, 5, 6, 7, 8, 9, 10]),
         "probe_interval": pi,
         "suspicion_timeout": round(pi * rng.choice([0.25, 0.5, 1.0, 1.5, 2.0, 3.0, 5.0, 5.0, 8.0, 12.0]), 6),
         "indirect_probe_count": rng.choice([0, 1, 2, 3, 3, 4, 5]),
